@@ -10,13 +10,13 @@ Variable p : program.
 Variable rk : node -> nat.
 Hypothesis Hrk : forall n e d, alookup p n = Some e -> In d (expr_reads e) -> (rk d < rk n)%nat.
 
-Definition StkOk (stk : list node) (n : node) : Prop := forall m, In m stk -> (rk n < rk m)%nat.
-
-Lemma StkOk_notin : forall stk n, StkOk stk n -> ~ In n stk.
-Proof. intros stk n H K. specialize (H n K). lia. Qed.
-
-Lemma StkOk_push : forall stk n d, StkOk stk n -> (rk d < rk n)%nat -> StkOk (n :: stk) d.
-Proof. intros stk n d H Hd m [<-|Hm]; [exact Hd|]. specialize (H m Hm). lia. Qed.
+(** the condition on the computing stack, abstractly: the queried node is not on it, and it
+    is kept when a node on top requests one of its syntactic reads (instances: a rank
+    argument, [RStkOk] below; non-reachability, [Engine/CoreCancel.v]) *)
+Variable StkOk : list node -> node -> Prop.
+Hypothesis StkOk_notin : forall stk n, StkOk stk n -> ~ In n stk.
+Hypothesis StkOk_push : forall stk n e d,
+  StkOk stk n -> alookup p n = Some e -> In d (expr_reads e) -> StkOk (n :: stk) d.
 
 Definition is_read (me : ccaller) : Prop := exists b pd prev, me = CCRead b pd prev.
 
@@ -136,12 +136,12 @@ Proof.
       * destruct (cquery p f (n :: stk) (CCRepair n pd) (Some fr) cal s) as [[[o fr'] s']| | |] eqn:Eq;
           try discriminate.
         assert (HM : MonoR (n :: stk) s s') by (eapply (proj1 (mono_all p f)); eauto).
-        assert (Hrkc : (rk cal < rk n)%nat).
+        assert (Hrkc : StkOk (n :: stk) cal).
         { destruct (ci_kind _ _ _ HI n i Hi) as [(_ & K2 & _)|[_ [e [He [_ Hr]]]]].
           - rewrite K2 in Hcal. destruct Hcal.
-          - eapply Hrk; eauto. }
+          - eapply StkOk_push; eauto. }
         destruct (IHq inp (n :: stk) (CCRepair n pd) (Some fr) cal s o fr' s' HI
-                    (StkOk_push _ _ _ Hstk Hrkc) Eq) as [HI' [ci (Hci & Hv & _)]].
+                    Hrkc Eq) as [HI' [ci (Hci & Hv & _)]].
         rewrite Hci in H.
         destruct (alookup (c_obs i) cal) as [ov|] eqn:Eov; [|discriminate].
         destruct (mr_stk _ _ _ HM n (or_introl eq_refl)) as [Hn1 Hn2].
@@ -186,7 +186,7 @@ Proof.
       assert (HM : MonoR (n :: stk) (cset_log s (n :: cs_log s)) s1)
         by (eapply (proj1 (proj2 (proj2 (mono_all p f)))); eauto).
       destruct (IHe inp _ _ _ _ _ _ _ _ (CInv_log p inp s (n :: cs_log s) HI)
-                  (fun d Hd => StkOk_push _ _ _ Hstk (Hrk _ _ _ Ee Hd))
+                  (fun d Hd => StkOk_push _ _ _ _ Hstk Ee Hd)
                   (fun d (Hd : In d (map fst (@nil (node * option Z)))) => match Hd with end)
                   (ex_intro _ n (ex_intro _ _ (ex_intro _ _ eq_refl))) Eev)
         as (HI1 & Hfr & _ & Hkeys & z & -> & Hev).
@@ -379,11 +379,11 @@ Proof.
       * destruct (cquery p f (n :: stk) (CCRepair n pd) (Some fr) cal s) as [[[o fr'] s']| | |] eqn:Eq;
           try discriminate.
         assert (HM : MonoR (n :: stk) s s') by (eapply (proj1 (mono_all p f)); eauto).
-        assert (Hrkc : (rk cal < rk n)%nat).
+        assert (Hrkc : StkOk (n :: stk) cal).
         { destruct (ci_kind _ _ _ HI n i Hi) as [(_ & K2 & _)|[_ [e [He [_ Hr]]]]].
           - rewrite K2 in Hcal. destruct Hcal.
-          - eapply Hrk; eauto. }
-        pose proof (StkOk_push _ _ _ Hstk Hrkc) as Hstk'.
+          - eapply StkOk_push; eauto. }
+        pose proof Hrkc as Hstk'.
         destruct (proj1 (sound_all f) inp _ _ _ _ _ _ _ _ HI Hstk' Eq) as [HI' _].
         pose proof (IHj inp _ _ _ _ _ _ _ _ HI Hstk' Eq) as L1.
         destruct (mr_stk _ _ _ HM n (or_introl eq_refl)) as [Hn1 _].
@@ -427,7 +427,7 @@ Proof.
       inversion H. subst s'. clear H.
       pose proof (Me _ _ _ _ _ _ _ _ Eev) as HM.
       assert (Hst : forall d, In d (expr_reads e) -> StkOk (n :: stk) d)
-        by (intros d Hd; apply StkOk_push; [exact Hstk|eapply Hrk; eauto]).
+        by (intros d Hd; eapply StkOk_push; eauto).
       assert (Hfr0 : FrOk (cset_log s (n :: cs_log s)) []) by (intros d []).
       assert (Hme : is_read (CCRead n (cc_pedantic c) match cget s n with Some i => c_fwd i | None => [] end))
         by (eexists; eexists; eexists; reflexivity).
@@ -516,3 +516,30 @@ Proof.
     auto.
 Qed.
 End Run.
+
+(** * the rank instance of the stack condition (every stack of a run started by a user) *)
+Section RankStack.
+Variable p : program.
+Variable rk : node -> nat.
+Hypothesis Hrk : forall n e d, alookup p n = Some e -> In d (expr_reads e) -> (rk d < rk n)%nat.
+
+Definition RStkOk (stk : list node) (n : node) : Prop := forall m, In m stk -> (rk n < rk m)%nat.
+
+Lemma RStkOk_nil : forall n, RStkOk [] n.
+Proof using Type. intros n m []. Qed.
+Lemma RStkOk_notin : forall stk n, RStkOk stk n -> ~ In n stk.
+Proof using Type. clear Hrk. intros stk n H K. specialize (H n K). lia. Qed.
+Lemma RStkOk_push : forall stk n e d,
+  RStkOk stk n -> alookup p n = Some e -> In d (expr_reads e) -> RStkOk (n :: stk) d.
+Proof.
+  intros stk n e d H He Hd m [<-|Hm]; [eapply Hrk; eauto|].
+  specialize (H m Hm). specialize (Hrk _ _ _ He Hd). lia.
+Qed.
+
+Lemma sound_all_rk : forall f,
+  sound_query p RStkOk f /\ sound_execute p RStkOk f /\ sound_eval p RStkOk f /\ sound_repair p RStkOk f.
+Proof. exact (sound_all p rk Hrk RStkOk RStkOk_notin RStkOk_push). Qed.
+Lemma just_all_rk : forall f,
+  just_query p RStkOk f /\ just_execute p RStkOk f /\ just_eval p RStkOk f /\ just_repair p RStkOk f.
+Proof. exact (just_all p rk Hrk RStkOk RStkOk_notin RStkOk_push). Qed.
+End RankStack.
